@@ -36,12 +36,20 @@ def pack_events(events, widths, big, datatype='I'):
 def build(version='FCS3.0', pairs=(), data=b'', delim='/', supp_pairs=None, analysis_pairs=None,
           offsets_in='header', end_conv='last', pad_text=0, pad_data=0, pad_tail=0,
           analysis_in='header', supp_lead=True, trailing_text='', raw_text=None, raw_supp=None,
-          raw_analysis=None, analysis_lead=True, offset_style='zero'):
+          raw_analysis=None, analysis_lead=True, offset_style='zero', stext_first=False):
     """Assemble HEADER + TEXT + [sTEXT] + DATA + [ANALYSIS].  pairs must NOT contain the offset
     keywords ($BEGINDATA ...); they are added here for 3.x with fixed-width values.
     Returns (bytes, layout dict)."""
     v3 = version in ('FCS3.0', 'FCS3.1')
     text_begin = 58 + pad_text
+    # stext_first: the supplemental TEXT segment is stored BEFORE the primary one (segments are located by offsets only)
+    pre = None
+    if stext_first and v3:
+        pre = raw_supp if raw_supp is not None else (encode_text(supp_pairs, delim, lead=supp_lead) if supp_pairs is not None else None)
+        if pre:
+            text_begin = 58 + pad_text + len(pre.encode(ENC))
+        else:
+            pre = None
 
     def text_with(off):
         if raw_text is not None:
@@ -66,7 +74,11 @@ def build(version='FCS3.0', pairs=(), data=b'', delim='/', supp_pairs=None, anal
     else:
         stext = None
     sb = se = 0
-    if stext is not None and v3 and len(stext) > 0:
+    if pre is not None:
+        sb = 58 + pad_text
+        se = sb + len(pre.encode(ENC)) - 1
+        stext = pre
+    elif stext is not None and v3 and len(stext) > 0:
         sb = pos
         se = pos + len(stext.encode(ENC)) - 1
         pos = se + 1
@@ -97,8 +109,10 @@ def build(version='FCS3.0', pairs=(), data=b'', delim='/', supp_pairs=None, anal
                                                          hdr_an[0], hdr_an[1])
     out = bytearray(header.encode(ENC))
     out += b' ' * pad_text
+    if pre is not None:
+        out += pre.encode(ENC)
     out += text
-    if sb:
+    if sb and pre is None:
         out += stext.encode(ENC)
     out += b'\x00' * pad_data
     assert len(out) == db, (len(out), db)
